@@ -272,9 +272,19 @@ def compare(c, io, mo):
     if c['op'] == 'hist':
         if len(io['pool']) != len(mo['pool']):
             return f'pool size: impl {len(io["pool"])} model {len(mo["pool"])}'
+        # the size of the numbers that went INTO each object (a composition that cancels two translations of size 2^19 carries
+        # the rounding of size 2^19, and a later rescale by 1000 multiplies it): inverse keeps it, compose adds, rescale scales
+        into = [max([Fraction(1)] + [abs(Fraction(F(h))) for h in p[4:7]]) for p in c['pool']]
+        for st in c['steps']:
+            if st[0] == 'inverse':
+                into.append(into[st[1]])
+            elif st[0] == 'compose':
+                into.append(sum(into[j] for j in st[1]))
+            else:
+                into.append(into[st[1]] * max(Fraction(1), abs(Fraction(F(st[2])))))
         for k_, (pa, pb) in enumerate(zip(io['pool'], mo['pool'])):
             qm = max(Fraction(1, 10 ** 9), max(abs(unrat(x)) for x in pb[0:4]))
-            tm = max([Fraction(1)] + [abs(unrat(x)) for x in pb[4:7]]) * 10
+            tm = max([Fraction(1)] + [abs(unrat(x)) for x in pb[4:7]] + ([into[k_]] if k_ < len(into) else [])) * 10
             for i, (a, b) in enumerate(zip(pa, pb)):
                 if not close(a, b, qm if i < 4 else tm):
                     return f'object {k_} component {i}: impl {F(a)!r} model {float(unrat(b))!r}'
